@@ -291,3 +291,56 @@ def good_hashintersection_guard(a, b):
             continue
         yield t
         counts[t] -= 1
+
+
+def good_hashintersection_stops_when_counts_used_up(a, b):
+    ita = iter(a)
+    yield tuple(next(ita))
+    itb = iter(b)
+    next(itb)
+    counts = Counter(tuple(r) for r in itb)
+    left = sum(counts.values())
+    for ar in ita:
+        if not left:
+            break
+        t = tuple(ar)
+        if counts[t] > 0:
+            yield t
+            counts[t] -= 1
+            left -= 1
+
+
+def bad_hashintersection_distinct_budget(a, b):
+    ita = iter(a)
+    yield tuple(next(ita))
+    itb = iter(b)
+    next(itb)
+    counts = Counter(tuple(r) for r in itb)
+    left = len(counts)
+    for ar in ita:
+        if not left:
+            break
+        t = tuple(ar)
+        if counts[t] > 0:
+            yield t
+            counts[t] -= 1
+            left -= 1
+
+
+def bad_hashcomplement_stops_when_counts_used_up(a, b, strict):
+    ita = iter(a)
+    yield tuple(next(ita))
+    itb = iter(b)
+    next(itb)
+    counts = Counter(tuple(r) for r in itb)
+    left = sum(counts.values())
+    for ar in ita:
+        if not left:
+            break
+        t = tuple(ar)
+        if counts[t] > 0:
+            if not strict:
+                counts[t] -= 1
+                left -= 1
+        else:
+            yield t
